@@ -133,8 +133,8 @@ def run_main_scenarios(spec, scratch):
             pr.kill(); so = 'TIMEOUT after SIGINT'
         return out, pr.returncode, so
 
-    def check(out, steps, outstep, rot, rf=0):
-        p = subprocess.run([chk, out, str(steps), str(outstep), str(rot), str(rf)], capture_output=True, text=True, timeout=120)
+    def check(out, steps, outstep, rot, rf=0, axis_only=False):
+        p = subprocess.run([chk, out, str(steps), str(outstep), str(rot), str(rf)] + (['axis'] if axis_only else []), capture_output=True, text=True, timeout=120)
         return p.returncode, p.stdout[-1500:]
     for sc in spec.get('scenarios', ['records']):
         try:
@@ -179,12 +179,14 @@ def run_main_scenarios(spec, scratch):
                         'given in the config file only': ([], {'StepsPerTs': 1500.0, 'SynchrotronFrequency': 9000.0, 'AcceleratingVoltage': 1.5e6, 'outstep': 7.0})}
                 for cname, cfile in (('current names', cur), ('legacy names', leg)):
                     for wname, (extra, exp) in want.items():
-                        out, rc, so = run(['-T', '0.01', '-c', cfile] + extra, f'opt_{cname[:3]}_{len(extra)}', base=['--run_anyway', '1', '-s', '32'])
+                        out, rc, so = run(['-T', '0.011', '-c', cfile] + extra, f'opt_{cname[:3]}_{len(extra)}', base=['--run_anyway', '1', '-s', '32'])
                         got = {k: cfgval(out + '.cfg', k) for k in exp}
                         bad_ = [k for k in exp if got[k] is None or abs(float(got[k]) - exp[k]) > 1e-6 * abs(exp[k])]
-                        if rc != 0 or bad_:
+                        # the value the run USED (not only the one it recorded): the time axis counts in units of 1/StepsPerTs
+                        crc, cso = check(out, exp['StepsPerTs'], int(exp['outstep']), 0.011, axis_only=True) if rc == 0 else (1, 'run failed')
+                        if rc != 0 or bad_ or crc == 1:
                             failed = True
-                        text.append(f'config with {cname}, options {wname}: exit {rc}, effective values {got}' + (f' — expected {exp}' if bad_ else ''))
+                        text.append(f'config with {cname}, options {wname}: exit {rc}, effective values {got}' + (f' — expected {exp}' if bad_ else '') + (f'; time axis against {exp["StepsPerTs"]:.0f} steps per period: {cso.strip()[-160:]}' if crc == 1 else ''))
                 # default when given nowhere
                 out, rc, so = run(['-T', '0.01'], 'opt_default')
                 dflt = cfgval(out + '.cfg', 'outstep')
